@@ -130,9 +130,116 @@ fn facets(ev: &Value, ex: &Value) -> Vec<(String, Value, Value, bool)> {
     out
 }
 
+/// Segment mode: every line of FILE is {prefix:[ops], op:op, suffix:[ops], sweep?:[kinds]}.
+/// Without `sweep` the segment is executed once. With `sweep`, for every kind the
+/// operation is executed with a panic armed at the n-th callback of that kind for
+/// n = 1, 2, ... until the operation completes without the panic firing, so that
+/// every callback of the operation in that state is hit exactly once.
+fn run_segments(args: &[String], cfg: &Config) {
+    let file = arg(args, "--segments").unwrap();
+    let mut events = BufWriter::new(std::fs::File::create(arg(args, "--events").expect("--events")).unwrap());
+    let max_n: u32 = arg(args, "--max-n").and_then(|s| s.parse().ok()).unwrap_or(60);
+    let reader = BufReader::new(std::fs::File::open(&file).unwrap());
+    let mut segments = 0u64;
+    let mut runs = 0u64;
+    let mut fired = 0u64;
+    let mut executed = 0u64;
+    let mut per_kind: std::collections::BTreeMap<String, u64> = Default::default();
+    let mut per_op: std::collections::BTreeMap<String, u64> = Default::default();
+
+    for line in reader.lines() {
+        let line = line.unwrap();
+        if line.trim().is_empty() { continue; }
+        let seg: Value = serde_json::from_str(&line).expect("bad segment");
+        segments += 1;
+        let prefix: Vec<Value> = seg["prefix"].as_array().cloned().unwrap_or_default();
+        let suffix: Vec<Value> = seg["suffix"].as_array().cloned().unwrap_or_default();
+        let sweep: Vec<String> = seg["sweep"].as_array()
+            .map(|v| v.iter().filter_map(|x| x.as_str().map(|s| s.to_string())).collect())
+            .unwrap_or_default();
+        let mut plan: Vec<(String, u32)> = Vec::new();
+
+        if sweep.is_empty() {
+            plan.push((String::new(), 0));
+        }
+
+        let mut kinds = sweep.clone();
+        kinds.reverse();
+        let mut current: Option<(String, u32)> = if sweep.is_empty() { None } else { kinds.pop().map(|k| (k, 1)) };
+
+        loop {
+            let (kind, n) = if let Some(p) = plan.pop() { p }
+                            else if let Some((k, n)) = current.clone() { (k, n) }
+                            else { break };
+            let mut session = Session::new(cfg.clone());
+            reg_reset();
+            runs += 1;
+
+            for o in prefix.iter() {
+                writeln!(events, "{}", session.exec(o)).unwrap();
+                executed += 1;
+            }
+
+            let mut o = seg["op"].clone();
+
+            if !kind.is_empty() {
+                o["crash"] = json!({"kind": kind, "n": n});
+            }
+
+            let ev = session.exec(&o);
+            let did_fire = ev["fired"] == true;
+            writeln!(events, "{}", ev).unwrap();
+            executed += 1;
+            *per_op.entry(o["a"]["op"].as_str().unwrap_or("?").to_string()).or_default() += 1;
+
+            if did_fire || kind.is_empty() {
+                for o in suffix.iter() {
+                    writeln!(events, "{}", session.exec(o)).unwrap();
+                    executed += 1;
+                }
+            }
+
+            let fin = session.finish();
+            writeln!(events, "{}", json!({"reset": true, "fin": fin, "leak_ok": true})).unwrap();
+
+            if !kind.is_empty() {
+                if did_fire {
+                    fired += 1;
+                    *per_kind.entry(kind.clone()).or_default() += 1;
+                }
+
+                current = if did_fire && n < max_n { Some((kind, n + 1)) }
+                          else { kinds.pop().map(|k| (k, 1)) };
+            }
+            else if sweep.is_empty() {
+                break;
+            }
+        }
+    }
+
+    events.flush().unwrap();
+    println!("{}", json!({"segments": segments, "runs": runs, "fired": fired, "executed": executed,
+        "per_kind": per_kind, "per_op": per_op, "hasher": cfg.hasher,
+        "keyform": format!("{:?}", cfg.keyform)}));
+}
+
 fn main() {
     std::panic::set_hook(Box::new(|_| { }));
     let args: Vec<String> = std::env::args().collect();
+
+    if arg(&args, "--segments").is_some() {
+        let cfg = Config {
+            hasher: arg(&args, "--hasher").unwrap_or_else(|| "default".into()),
+            keyform: if arg(&args, "--keyform").as_deref() == Some("borrowed") { KeyForm::Borrowed }
+                     else { KeyForm::Owned },
+            universe: arg(&args, "--universe").and_then(|s| s.parse().ok()).unwrap_or(4),
+            seed: arg(&args, "--seed").and_then(|s| s.parse().ok()).unwrap_or(0),
+            full_hook: true
+        };
+        run_segments(&args, &cfg);
+        return;
+    }
+
     let script = arg(&args, "--script").expect("--script");
     let cfg = Config {
         hasher: arg(&args, "--hasher").unwrap_or_else(|| "default".into()),
@@ -192,8 +299,9 @@ fn main() {
             if compare {
                 let live = fin["live"].as_u64().unwrap_or(0);
                 let anom = fin["anom"].as_array().map(|a| a.len()).unwrap_or(0);
+                let expect_live = op["expect_live"].as_u64().unwrap_or(0);
 
-                if (live > 0 && !allowed) || anom > 0 {
+                if (live != expect_live && !allowed) || anom > 0 {
                     leaks += 1;
                     n_mismatch += 1;
 
